@@ -33,9 +33,9 @@ GrecOf(js) == [g \in GroupIds |-> js[g]]
 SnapGroupsOf(js) == [g \in DOMAIN js |-> [members |-> [i \in DOMAIN js[g].members |-> [c |-> js[g].members[i].c, S |-> ToSet(js[g].members[i].S)]],
                                            epoch |-> js[g].epoch, coord |-> js[g].coord]]
 RefOf(j) == IF ~j.has THEN NoRef
-            ELSE [has |-> TRUE, idx |-> j.idx, live |-> ToSet(j.live), frozen |-> ProtosOf(j.frozen), heads |-> j.heads, groups |-> SnapGroupsOf(j.groups)]
+            ELSE [has |-> TRUE, idx |-> j.idx, live |-> ToSet(j.live), frozen |-> ProtosOf(j.frozen), heads |-> j.heads, groups |-> SnapGroupsOf(j.groups), lastPub |-> j.lastPub]
 SnapOf(j) == IF ~j.has THEN NoSnap
-             ELSE [has |-> TRUE, idx |-> j.idx, streams |-> ProtosOf(j.streams), heads |-> j.heads, groups |-> SnapGroupsOf(j.groups)]
+             ELSE [has |-> TRUE, idx |-> j.idx, streams |-> ProtosOf(j.streams), heads |-> j.heads, groups |-> SnapGroupsOf(j.groups), lastPub |-> j.lastPub]
 OpOf(o) ==
   CASE o.op = "CreateStream" -> [op |-> o.op, s |-> o.s, n |-> o.n, R |-> ToSet(o.R), ldr |-> o.ldr, subj |-> o.subj, cfg |-> o.cfg, ts |-> o.ts]
     [] o.op = "Pause" -> [op |-> o.op, s |-> o.s, pids |-> ToSet(o.pids), resumeAll |-> o.resumeAll]
